@@ -6,16 +6,22 @@ set -u
 name=$1
 prop=${name%%-*}
 src=/tmp/seeded-out/$name
+[ -d $src ] || src=/verif/seeded/$name      # the kept copy is the source once the scratch one is gone
 wt=/tmp/seedwt-$name
 demo=/tmp/seeddemo-$name
 export GOFLAGS=-mod=mod GOPROXY=off GOSUMDB=off GOTOOLCHAIN=local
 out=/verif/seeded/$name
 mkdir -p $out
-cp -r $src/* $out/ 2>/dev/null
+[ $src = $out ] || cp -r $src/* $out/ 2>/dev/null
 git -C /repo worktree remove --force $wt >/dev/null 2>&1
 git -C /repo worktree add -q $wt HEAD || exit 2
 applies=true
-( cd $wt && git apply $src/patch.diff ) || ( cd $wt && git apply -3 $src/patch.diff ) || applies=false
+patch=$src/patch.diff
+# a seed whose context was moved by later fix: commits may carry the same change re-based on the
+# current tree (kept next to the original)
+[ -f $out/patch.rebased.diff ] && patch=$out/patch.rebased.diff
+[ -f $src/patch.rebased.diff ] && patch=$src/patch.rebased.diff
+( cd $wt && git apply $patch ) || ( cd $wt && git apply -3 $patch ) || applies=false
 builds=false; suite=false; demo_clean=unknown; demo_patched=unknown
 if $applies; then
   ( cd $wt && go build ./... ) && builds=true
